@@ -1421,6 +1421,22 @@ func runC19(c *Ctx) {
 				})
 			}
 		}
+		// ... or through a helper that answers the sentinel it is given exactly when no
+		// row was affected, and whose error the method returns
+		var rowsHelperCalls []*ast.CallExpr
+		for _, hc := range g.Calls(false, func(*ast.CallExpr) bool { return true }) {
+			h := c.FnOfObj(g.Callee(hc))
+			if i, ok := rowsAffectedHelper(h); ok && i < len(hc.Args) {
+				rowsHelperCalls = append(rowsHelperCalls, hc)
+				if g.Prov(hc.Args[i]) == "global:spec/chord."+want {
+					for _, r := range g.Returns() {
+						if g.FactsAt(r).Has(func(fa *Fact) bool { return fa.Kind == FCallFail && fa.Call == hc }) || containsNode(r, hc) {
+							okS = true
+						}
+					}
+				}
+			}
+		}
 		c.Ob("sql-lease", "sqlite."+q.method+"#zero-rows->"+want, exec.Pos(), okS, "when the conditional statement changed no row the method answers "+want)
 		// and the tracker update only after rows were affected
 		for _, call := range g.CallsTo(false, "kv/sqlite3.SqliteKV.updateKeyTracker") {
@@ -1432,6 +1448,11 @@ func runC19(c *Ctx) {
 				v, _ := g.ConstVal(be.Y)
 				return v == "0" && strings.HasSuffix(g.Prov(be.X), ".RowsAffected()#0")
 			})
+			for _, hc := range rowsHelperCalls {
+				if g.FactsAt(call).Has(func(fa *Fact) bool { return fa.Kind == FCallOK && fa.Call == hc }) {
+					okN = true
+				}
+			}
 			c.Ob("sql-lease", "sqlite."+q.method+"#success-only-if-rows-affected", call.Pos(), okN, "the operation proceeds to success only when the conditional statement changed a row")
 		}
 	}
